@@ -117,9 +117,24 @@ mut('ctl-c08-gt-fewer-columns', [], 'scared/analysis/base.py',
 mut('ctl-container-slices-by-arange', [], 'scared/container.py',
     "            for start in range(len(ths) // batch_size)", "            for start in list(range(0, len(ths) // batch_size, 1))",
     controls=['C02', 'C08'])
+# a *correct* polling variant of the join loop (timed joins, then a blocking join that re-raises): the thread simulation must model
+# join(timeout) and stay silent
+mut('ctl-ttest-polling-join-correct', [], 'scared/ttest.py',
+    "            for accu in self.accumulators:\n                accu.join()\n                accu.compute()\n",
+    "            pending = list(self.accumulators)\n            while pending:\n                for accu in list(pending):\n                    accu.join(timeout=0.02)\n"
+    "                    if not accu.is_alive():\n                        accu.join()\n                        accu.compute()\n                        pending.remove(accu)\n",
+    controls=['C09'])
+# process() narrows nothing but hands update() a float64 copy of the batch: dtype at the update boundary differs, results do not
+mut('ctl-process-widens-batch', [], 'scared/analysis/base.py',
+    "            traces=traces_batch.samples\n",
+    "            traces=traces_batch.samples.astype('float64')\n",
+    controls=['C02', 'C08'])
 for m in M:
     if m['id'] == 'c09-shared-slot':
         m['extra'] = ('scared/ttest.py', "logger = _logging.getLogger(__name__)\n", "logger = _logging.getLogger(__name__)\n_SHARED = {}\n")
+    if m['id'] == 'ctl-ttest-polling-join-correct':
+        m['extra'] = ('scared/ttest.py', "    def join(self):\n        \"\"\"Wait end of thread processing and check for exception. Reraise if any.\"\"\"\n        super().join()\n",
+                      "    def join(self, timeout=None):\n        \"\"\"Wait end of thread processing and check for exception. Reraise if any.\"\"\"\n        super().join(timeout)\n")
     if m['id'] == 'c16-cpa-check-after-first-accumulation':
         m['extra'] = ('scared/distinguishers/cpa.py', "        self.ey2 += _np.sum(_data ** 2, axis=0)\n",
                       "        self.ey2 += _np.sum(_data ** 2, axis=0)\n        if traces.shape[1] != self.ex.shape[0]:\n            raise DistinguisherError(f'traces have different size {traces.shape[1]} than already processed traces {self.ex.shape[0]}.')\n")
